@@ -194,14 +194,18 @@ where
     /// Try to decrypt media using the epoch stored alongside the message's IMETA tag.
     ///
     /// Looks up the epoch from the `messages` table by searching for the IMETA tag's
-    /// `x <hex_hash>` field, then attempts decryption with that epoch's exporter secret.
+    /// `n <hex_nonce>` field, then attempts decryption with that epoch's exporter secret.
     /// This avoids brute-forcing all historical epochs in the common case.
+    ///
+    /// The nonce is unique per upload. The content hash (`x`) is not: the same file shared
+    /// again in a later epoch has the same hash but a key derived from another epoch, so a
+    /// lookup by hash could return the epoch of the other upload.
     fn try_decrypt_with_epoch_hint(
         &self,
         encrypted_data: &[u8],
         reference: &MediaReference,
     ) -> Result<Vec<u8>, EncryptedMediaError> {
-        let search_term = format!("x {}", hex::encode(reference.original_hash));
+        let search_term = format!("n {}", hex::encode(reference.nonce));
 
         let epoch = self
             .mdk
